@@ -234,6 +234,7 @@ int32_t tls13NewTicket(ssl_t *ssl,
     {
         tls13FreePsk(psk, ssl->hsPool);
         psAesClearGCM(&ctx);
+        psDynBufUninit(&buf);
         return rc;
     }
 
@@ -247,6 +248,7 @@ int32_t tls13NewTicket(ssl_t *ssl,
     {
         tls13FreePsk(psk, ssl->hsPool);
         psAesClearGCM(&ctx);
+        psDynBufUninit(&buf);
         return rc;
     }
 
@@ -504,6 +506,7 @@ int32_t tls13ExportState(ssl_t *ssl,
         &paramsDataLen);
     if (paramsData == NULL)
     {
+        psDynBufUninit(&buf);
         return PS_MEM_FAIL;
     }
     psDynBufAppendTlsVector(&buf,
